@@ -302,7 +302,8 @@ func cmdCheck(args []string) int {
 		if !reproduced {
 			suffix = " no-failing-input-found"
 		}
-		lines = append(lines, fmt.Sprintf("VIOLATION property=%s replay=%s obligation=%s%s", prop, rp, ob.Name, suffix))
+		lines = append(lines, fmt.Sprintf("failed obligation: %s (%s) at %s", ob.Name, ob.Fail.Result.Status, ob.Where))
+		lines = append(lines, fmt.Sprintf("VIOLATION property=%s replay=%s%s", prop, rp, suffix))
 		exit = 1
 	}
 	// ledger obligations that must exist
@@ -516,9 +517,10 @@ func writeReplay(x *Exec, prop string, ob *Obligation, ledger []string, keep boo
 	if in.Result.Status == "sat" {
 		model := parseModel(in.Result.Output)
 		rec["model"] = modelSummary(model)
-		ok, out, test := runAdapter(x, prop, ob, in, model)
+		ok, out, test, vals := runAdapter(x, prop, ob, in, model)
 		rec["replay_output"] = out
-		rec["replay_test"] = test
+		rec["replay_adapter"] = test
+		rec["model_values"] = vals
 		reproduced = ok
 	}
 	rec["reproduced_on_real_code"] = reproduced
